@@ -72,6 +72,7 @@ class Tokens(object):
         self.fwd = {k: {} for k in self.KINDS}
         self.rev = {k: {} for k in self.KINDS}
         self.gen = 0  # generated mailbox ids seen so far
+        self.alias = {}   # kind -> {text SQLite stores for a non-string JSON value -> its "#" token}
         for kind, m in (table or {}).items():
             for tok, conc in m.items():
                 # tokens invented for strings the server made up (generated
@@ -94,6 +95,12 @@ class Tokens(object):
         """concrete string for a token (default: a decorated copy of it)."""
         if tok == ABSENT:
             return None
+        if tok.startswith("#"):
+            # a JSON value that is not a string (number, boolean): "#7" is 7
+            v = json.loads(tok[1:])
+            text = ("1" if v else "0") if isinstance(v, bool) else ("%.15g" % v if isinstance(v, float) else str(v))
+            self.alias.setdefault(kind, {})[text] = tok
+            return v
         if tok not in self.fwd[kind]:
             if (kind == "name" and tok.isdigit()) or kind == "mood":
                 # numeric nameplates and moods mean something to the server
@@ -102,15 +109,24 @@ class Tokens(object):
                 self.define(kind, tok, "%s:%s" % (kind, tok))
         return self.fwd[kind][tok]
 
-    def tok(self, kind, conc):
-        """token of a concrete value found in a frame or a database row."""
+    def tok(self, kind, conc, db=False):
+        """token of a concrete value found in a frame or a database row.  A value
+        submitted as a JSON number/boolean ("#7") is stored by SQLite's text
+        affinity as text; in a database row that text stands for the same value,
+        in a frame it is the stringified form "$7" (known finding F10 when the
+        server replays it that way)."""
         if conc is None:
             return ABSENT
         if not isinstance(conc, str):
+            if isinstance(conc, (bool, int, float)):
+                return "#" + json.dumps(conc)
             conc = "!%r" % (conc,)
         t = self.rev[kind].get(conc)
         if t is not None:
             return t
+        al = self.alias.get(kind, {}).get(conc)
+        if al is not None:
+            return al if db else "$" + al[1:]
         if kind == "mbox":
             # a string the server made up: generated mailbox id, first seen
             self.gen += 1
@@ -344,8 +360,8 @@ class Driver(object):
         for (app, mid, side, phase, body, rx, msgid) in q(
                 "SELECT app_id, mailbox_id, side, phase, body, server_rx, msg_id FROM messages ORDER BY rowid"):
             msgs.append(dict(app=T.tok("app", app), mbox=T.tok("mbox", mid), side=T.tok("side", side),
-                             phase=T.tok("phase", phase), body=T.tok("body", body),
-                             rx=self.to_ticks(rx), id=T.tok("id", msgid)))
+                             phase=T.tok("phase", phase, db=True), body=T.tok("body", body, db=True),
+                             rx=self.to_ticks(rx), id=T.tok("id", msgid, db=True)))
         return dict(np=np, nps=nps, mb=mb, mbs=mbs, msgs=msgs, anom=sorted(anom))
 
     def read_usage(self, conn=None):
@@ -375,8 +391,13 @@ class Driver(object):
         return dict(db=self.read_channel(), udb=self.read_usage())
 
     # -- recording --------------------------------------------------------
+    quiet = False    # set-up phases that are not recorded: no snapshots, no database reads
+
     def _begin_step(self):
-        self._step = dict(out=[], tr=[], last=self.read_disk(), files=[], gen0=self.tokens.gen)
+        self._step = dict(out=[], tr=[], last=None if self.quiet else self.read_disk(), files=[],
+                          gen0=self.tokens.gen)
+        if self.quiet:
+            return
         if self.cfg.snapshots:
             self._step["files0"] = self._copy_files()
 
@@ -390,7 +411,7 @@ class Driver(object):
 
     def _on_commit(self):
         st = self._step
-        if st is None:
+        if st is None or st["last"] is None:
             return
         cur = self.read_disk()
         if cur != st["last"]:
@@ -705,6 +726,8 @@ class Driver(object):
                 del T.rev["mbox"][conc]
                 T.gen -= 1
         self._step = None
+        if self.quiet:
+            return dict(e=e, out=st["out"], err=err, tr=[], db=None, udb=None, cands=[], now=self.now_ticks(), hid=None)
         disk = self.read_disk()
         obs = dict(e=e, out=st["out"], err=err, tr=st["tr"], db=disk["db"], udb=disk["udb"], cands=st.get("cands", []),
                    now=self.now_ticks(),
